@@ -459,6 +459,29 @@ class Extractor:
                 self.nscope = getattr(self, 'nscope', 0) + 1
                 sub['#scope'] = str(self.nscope)
                 inner = self.seq_of(cf, sub, depth + 1)
+                if dest and cf.body is not None:
+                    # a helper that opens a slot (tell) and hands the position back: the slot is known to the caller under the
+                    # name of the variable that receives the result
+                    rl = set()
+                    for r_ in cf.all_nodes({'ReturnStmt'}):
+                        if r_.get('ch'):
+                            rn = cf.nodes[cf.strip(r_['ch'][0], 'all')]
+                            rl.add('local:%s@%s' % (rn['decl'].get('name'), sub['#scope']) if rn['k'] == 'DeclRefExpr' and rn['decl'].get('dk') == 'local' else None)
+                    if len(rl) == 1 and None not in rl:
+                        old_name = list(rl)[0]
+
+                        def ren(items):
+                            o2 = []
+                            for it in items:
+                                if it[0] == 'slot' and it[1] == 'tell' and it[2] == old_name:
+                                    it = ('slot', 'tell', dest) + tuple(it[3:])
+                                elif it[0] in ('loop', 'call'):
+                                    it = tuple(it[:3]) + (ren(it[3]),) + tuple(it[4:])
+                                elif it[0] == 'alt':
+                                    it = tuple(it[:2]) + (ren(it[2]), ren(it[3])) + tuple(it[4:])
+                                o2.append(it)
+                            return o2
+                        inner = ren(inner)
                 out.append(('call', cf, sub, inner, n['id'], f))
             return out
         # descend generically (keeps order of children)
